@@ -39,6 +39,10 @@ def axioms(c):
 
 def run(ck, prog, ctx):
     ck.rule("IDENT", "identity shortcut is the first decision and returns 1 (must-pass-through, DESIGN 3.6)")
+    # no truncating adaptor (skip / take / step_by ..) in the iterator pipelines of these functions: every element takes part
+    from engines import check_complete_iteration as _cci_all
+    _cci_all(ck, "KIND", prog, [b_ for b_ in sorted(prog.production(), key=lambda z: z.id) if re.search(r"^src/similarity/defaults\.rs$", b_.file or "") and b_.kind in ("Fn", "AssocFn") and not b_.test
+                               and any(t_.callee.trait == "std::iter::Iterator" for fb_ in prog.family(b_) for _, t_ in fb_.calls())], "the ancestors / annotations it iterates")
     ck.rule("GUARD", "divisor / ln argument proven NonZero / Pos by forward abstract interpretation with SwitchInt edge refinement (DESIGN 3.5)")
     ck.rule("DISPATCH", "in the region dominated by the arm of variant V no callee/field named after another variant V' (DESIGN 3.11)")
     ck.rule("SELECT", "direction of a two-way selection from (comparison op, operand returned on the true edge) (DESIGN 3.10)")
@@ -46,6 +50,17 @@ def run(ck, prog, ctx):
     ck.rule("CTORS", "a similarity type with an argument-less new() and a Default impl builds the same value both ways, field by field (constants followed through one delegating constructor)")
     from engines import check_ctor_agreement
     check_ctor_agreement(ck, "CTORS", prog, r"^src/similarity")
+    # ---- the maximum information content over the common ancestors starts from 0 (ICs are never negative; 0 is the documented result when there
+    # is no informative common ancestor).  Any other seed takes part in the maximum: `fold(1.0, max)` never answers below 1.
+    for fb4 in sorted(prog.production(), key=lambda z: z.id):
+        if not (fb4.file or "").endswith("similarity/defaults.rs") or fb4.test:
+            continue
+        for bi4, t4 in fb4.calls():
+            if t4.callee.method == "fold" and t4.callee.trait == "std::iter::Iterator" and len(t4.args) == 3 and t4.args[1].kind == "const" and t4.args[1].float_value() is not None:
+                cb4 = prog.bodies.get(Prov(prog, inline=False).closure_of_operand(fb4, t4.args[2]) or "")
+                picks_max = cb4 is not None and (any(st_.k == "assign" and st_.rv["k"] == "bin" and st_.rv["op"] in ("Gt", "Lt", "Ge", "Le") for _, st_ in cb4.stmts()) or any(ct_.callee.method in ("max", "min") for _, ct_ in cb4.calls()))
+                if picks_max:
+                    ck.ob("SELECT", "max-seed/%s" % fb4.short, t4.args[1].float_value() == 0.0, "%s folds a maximum / minimum starting from %s%s" % (fb4.short, t4.args[1].float_value(), "" if t4.args[1].float_value() == 0.0 else ": the seed takes part in the result (expected 0.0, the value for `no informative common ancestor`)"), where=fb4.where(t4.line))
     ai = absint.Interp(prog, axioms)
     pv = Prov(prog)
     pv_sel = Prov(prog, bind_closures=False, inline=False)
